@@ -6,9 +6,14 @@ case = (kind, ...):
                                     | (2, N, n) parallelize(range(N), n)
                                 ops = (0, m) coalesce | (1, m) repartition | (2, n, fcode) partitionBy
                                     | (3,) zipWithUniqueId | (4,) mapPartitionsWithIndex(tag with index)
+                                    | (5, c) map | (6, c) flatMap | (7, c) keyBy | (8,) mapValues | (9,) persist
+                                    | (10,) zipWithIndex | (11, i, where) a stage that raises once in the task of
+                                      partition i | (12,) index tag whose function logs the index of every call
                       -> (getNumPartitions(), glom().collect(), indices seen by mapPartitionsWithIndex)
   (1, N, n)           summary of parallelize(range(N), n): [(count, first)] per partition
   (2, key)            (portable_hash(key), rdd._hash(key))
+  (4, src, ops)       as (0, ...) with a transient fault stage and at most one logging stage (in the last lazy
+                      segment) -> (num, glom, indices, indices logged per attempt during the final job)
   (3, N, n, probes)   parallelize(range(N), n) with many slices; only the probed slices go to Coq,
                       the oracle looks at all of them
 """
@@ -36,7 +41,14 @@ RULE = ('pipelines source + ops observed through getNumPartitions/glom().collect
         'int/float/str/nested tuples x partition counts; virtual inputs range(N) up to 3*10^6 elements and 10^6 slices '
         'summarised as (count, first) per slice; hashes of keys of the portable domain.  Additionally every hash and '
         'default-partitioner case is re-run in child interpreters under 5 PYTHONHASHSEED values and each child result is '
-        'compared with the Coq value.  non-trivial = more than one partition on either side of some op, or a non-None '
+        'compared with the Coq value.  Sequences: partitionBy(n, f) -> key-changing lazy transformations (map swap / '
+        'wrap / key+1, flatMap, keyBy, zipWithUniqueId, index tag; mapValues and persist as controls) -> partitionBy with '
+        'the same n and the same function object (controls: other n, other f), two- and three-fold (250 quick / 3000 '
+        'thorough), judged on the final layout with no action in between.  Transient faults: a stage raises once in the '
+        'task of partition i (before the first element, after the first, at the end; i in and out of range) below or above '
+        'zipWithUniqueId / a logging mapPartitionsWithIndex stage, before zipWithIndex / partitionBy / coalesce / '
+        'repartition (250 / 3000); contents read through Context.runJob so that the last stage is the outermost one; the '
+        'indices logged on every attempt are compared with the model (run_task/run_job).  non-trivial = more than one partition on either side of some op, or a non-None '
         'hash key; distinct by canonical JSON of the case')
 ASSUMPTIONS = [
     '64-bit CPython: sys.maxsize = 2^63-1, sys.hash_info.modulus = 2^61-1 (asserted at import)',
@@ -78,17 +90,104 @@ def _tag(i, it):
     return ((i, x) for x in it)
 
 
+MAPS = {
+    0: lambda kv: (kv[1], kv[0]),
+    1: lambda kv: ((kv[0],), kv[1]),
+    2: lambda kv: (kv[0] + 1, kv[1]),
+    3: lambda x: (x, x),
+}
+FLATMAPS = {
+    0: lambda kv: [kv, (kv[1], kv[0])],
+    1: lambda x: [x, x],
+}
+KEYBYS = {
+    0: lambda e: e[1],
+    1: lambda e: 0,
+    2: lambda e: e,
+    3: lambda e: e % 3,
+}
+
+
+def _wrap_value(v):
+    return (v,)
+
+
+MATERIALISING = (0, 1, 2, 10)
+
+
+class Transient(RuntimeError):
+    pass
+
+
+class Applier:
+    """Applies ops to a dataset; owns the state of the fault stage (fires once) and the index log."""
+
+    def __init__(self):
+        self.fired = False
+        self.log = []
+
+    def _faulty(self, fi, where):
+        def faulty(idx, it):
+            mine = idx == fi
+            if mine and where == 0 and not self.fired:
+                self.fired = True
+                raise Transient('transient fault before the first element')
+            n = 0
+            for x in it:
+                yield x
+                n += 1
+                if mine and where == 1 and n == 1 and not self.fired:
+                    self.fired = True
+                    raise Transient('transient fault after the first element')
+            if mine and not self.fired:
+                self.fired = True
+                raise Transient('transient fault at the end of the partition')
+        return faulty
+
+    def _log_tag(self, i, it):
+        self.log.append(i)
+        return ((i, x) for x in it)
+
+    def apply(self, r, op):
+        c = op[0]
+        if c == 0:
+            return r.coalesce(op[1])
+        if c == 1:
+            return r.repartition(op[1])
+        if c == 2:
+            f = FUNCS[op[2]]
+            return r.partitionBy(op[1]) if f is None else r.partitionBy(op[1], f)
+        if c == 3:
+            return r.zipWithUniqueId()
+        if c == 4:
+            return r.mapPartitionsWithIndex(_tag)
+        if c == 5:
+            return r.map(MAPS[op[1]])
+        if c == 6:
+            return r.flatMap(FLATMAPS[op[1]])
+        if c == 7:
+            return r.keyBy(KEYBYS[op[1]])
+        if c == 8:
+            return r.mapValues(_wrap_value)
+        if c == 9:
+            return r.persist()
+        if c == 10:
+            return r.zipWithIndex()
+        if c == 11:
+            return r.mapPartitionsWithIndex(self._faulty(op[1], op[2]))
+        if c == 12:
+            return r.mapPartitionsWithIndex(self._log_tag)
+        raise ValueError(f'unknown op {op!r}')
+
+
 def _apply(r, op):
-    if op[0] == 0:
-        return r.coalesce(op[1])
-    if op[0] == 1:
-        return r.repartition(op[1])
-    if op[0] == 2:
-        f = FUNCS[op[2]]
-        return r.partitionBy(op[1]) if f is None else r.partitionBy(op[1], f)
-    if op[0] == 3:
-        return r.zipWithUniqueId()
-    return r.mapPartitionsWithIndex(_tag)
+    return Applier().apply(r, op)
+
+
+def _contents(r):
+    """Partition contents through Context.runJob, the call collect() itself makes: no glom stage is put on top,
+    so the last stage of the pipeline is the outermost one of the task (it gets the task's own TaskContext)."""
+    return r.context.runJob(r, lambda tc, it: list(it))
 
 
 def _observe(r):
@@ -111,11 +210,16 @@ def _summary(N, n):
 
 def impl(case):
     try:
-        if case[0] == 0:
+        if case[0] in (0, 4):
+            ap = Applier()
             r = _source(Context(), case[1])
             for op in case[2]:
-                r = _apply(r, op)
-            return _observe(r)
+                r = ap.apply(r, op)
+            if case[0] == 0:
+                return _observe(r)
+            num, parts = r.getNumPartitions(), _contents(r)
+            log = list(ap.log)
+            return (num, parts, r.mapPartitionsWithIndex(lambda i, it: [i]).collect(), log)
         if case[0] == 1:
             return _summary(case[1], case[2])
         if case[0] == 2:
@@ -229,6 +333,10 @@ def _step_oracle(op, before, after):
         want = [[(i, x) for x in b] for i, b in enumerate(before)]
         if not _same(after, want):
             return ('mapPartitionsWithIndex:indices', f'{after!r:.200}, expected {want!r:.200}')
+    elif op[0] == 10:
+        want = [(x, i) for i, x in enumerate(_flat(before))]
+        if not _same(_flat(after), want):
+            return ('zipWithIndex:not-0..len-1-in-order', f'{_flat(after)!r:.200}, expected {want!r:.200}')
     return None
 
 
@@ -263,40 +371,142 @@ def _summary_oracle(N, n, out):
     return None
 
 
-def oracle(case, result):
-    """The statement of C07 executed on the implementation alone (pipelines are re-run step by step)."""
-    if case[0] == 0:
-        try:
-            ctx = Context()
-            r = _source(ctx, case[1])
-            parts = r.glom().collect()
-        except Exception:  # pylint: disable=broad-except
-            return None
-        src = case[1]
-        if src[0] != 1:
-            xs = list(src[1]) if src[0] == 0 else list(range(src[1]))
-            o = _check_parallelize(xs, src[2], parts)
-            if o:
-                return o
-        for op in case[2]:
-            try:
-                r = _apply(r, op)
-                after = r.glom().collect()
-                idx = r.mapPartitionsWithIndex(lambda i, it: [i]).collect()
-            except Exception as e:  # pylint: disable=broad-except
-                legal = ((op[0] == 0 and (op[1] < 1 or not parts)) or (op[0] == 2 and op[1] < 1)
-                         or (op[0] == 2 and not all(isinstance(kv, tuple) and kv for kv in _flat(parts))))
-                if legal:
-                    return None
-                return (f'{["coalesce", "repartition", "partitionBy", "zipWithUniqueId", "mapPartitionsWithIndex"][op[0]]}'
-                        f':raises-{type(e).__name__}', f'op {op!r} on {parts!r:.200}')
-            if idx != list(range(len(after))):
-                return ('mapPartitionsWithIndex:indices', f'indices {idx!r:.200} for {len(after)} partitions after {op!r}')
-            o = _step_oracle(op, parts, after)
-            if o:
-                return o
-            parts = after
+OPNAMES = ['coalesce', 'repartition', 'partitionBy', 'zipWithUniqueId', 'mapPartitionsWithIndex', 'map', 'flatMap',
+           'keyBy', 'mapValues', 'persist', 'zipWithIndex', 'faultyStage', 'mapPartitionsWithIndex']
+
+
+def _spec_lazy(op, parts):
+    """What a lazy (non-materialising) op yields for given partition contents -- the statement, as plain lists."""
+    c = op[0]
+    if c == 3:
+        n = len(parts)
+        return [[(x, k * n + i) for k, x in enumerate(p)] for i, p in enumerate(parts)]
+    if c in (4, 12):
+        return [[(i, x) for x in p] for i, p in enumerate(parts)]
+    if c == 5:
+        return [[MAPS[op[1]](x) for x in p] for p in parts]
+    if c == 6:
+        return [[y for x in p for y in FLATMAPS[op[1]](x)] for p in parts]
+    if c == 7:
+        return [[(KEYBYS[op[1]](x), x) for x in p] for p in parts]
+    if c == 8:
+        return [[(kv[0], (kv[1],)) for kv in p] for p in parts]
+    return parts        # persist, faulty stage: same partitions, same contents
+
+
+def _final_layout_oracle(case, result):
+    """Judged on the layout the implementation returned, with no action between the ops: after the LAST
+    partitionBy(n, f) (followed at most by stages that keep keys and layout) every pair sits in partition
+    f(key) mod n, hence equal keys are co-located -- whatever came before."""
+    ops = case[2]
+    last = max((i for i, op in enumerate(ops) if op[0] in MATERIALISING), default=None)
+    if last is None or ops[last][0] != 2 or ops[last][1] < 1 or any(op[0] not in (8, 9, 11) for op in ops[last + 1:]):
         return None
+    n = ops[last][1]
+    f = FUNCS[ops[last][2]] or rdd_mod._hash  # pylint: disable=protected-access
+    parts = result[1]
+    if len(parts) != n:
+        return ('partitionBy:partition-count', f'{len(parts)} partitions after partitionBy({n})')
+    for j, p in enumerate(parts):
+        for kv in p:
+            try:
+                want = f(kv[0]) % n
+            except Exception:  # pylint: disable=broad-except
+                return None
+            if want != j:
+                return ('partitionBy:pair-not-in-partition-f-key-mod-n',
+                        f'{kv!r:.80} is in partition {j} of {n}, f(key) mod n = {want}; ops {ops!r:.200}')
+    return None
+
+
+def _pipeline_oracle(case, result):
+    if not isinstance(result, Err):
+        o = _final_layout_oracle(case, result)
+        if o:
+            return o
+    ap = Applier()
+    try:
+        r = _source(Context(), case[1])
+        parts = r.glom().collect()
+    except Exception:  # pylint: disable=broad-except
+        return None
+    src = case[1]
+    if src[0] != 1:
+        xs = list(src[1]) if src[0] == 0 else list(range(src[1]))
+        o = _check_parallelize(xs, src[2], parts)
+        if o:
+            return o
+    # `exp`: contents the statement gives for r, composed over the lazy ops since the last materialisation
+    # (no action is run between lazy ops: a fault stage must fire in the job the pipeline itself runs)
+    exp, pending = parts, []
+
+    def lazy_sig():
+        codes = [op[0] for op in pending]
+        fault = ':after-transient-fault' if 11 in codes and ap.fired else ''
+        if 3 in codes:
+            return 'zipWithUniqueId:id-not-k*n+i' + fault
+        if 4 in codes or 12 in codes:
+            return 'mapPartitionsWithIndex:indices' + fault
+        return 'lazy-stages:elements-differ' + fault
+
+    for op in case[2]:
+        if op[0] not in MATERIALISING:
+            try:
+                r = ap.apply(r, op)
+                exp = _spec_lazy(op, exp)
+            except Exception:  # pylint: disable=broad-except
+                return None
+            pending.append(op)
+            continue
+        try:
+            r = ap.apply(r, op)
+            after = r.glom().collect()
+            idx = r.mapPartitionsWithIndex(lambda i, it: [i]).collect()
+        except Exception as e:  # pylint: disable=broad-except
+            legal = ((op[0] == 0 and (op[1] < 1 or not exp)) or (op[0] == 2 and op[1] < 1)
+                     or (op[0] == 2 and not all(isinstance(kv, tuple) and kv for kv in _flat(exp))))
+            if legal:
+                return None
+            return (f'{OPNAMES[op[0]]}:raises-{type(e).__name__}', f'op {op!r} on {exp!r:.200}')
+        if idx != list(range(len(after))):
+            return ('mapPartitionsWithIndex:indices', f'indices {idx!r:.200} for {len(after)} partitions after {op!r}')
+        o = _step_oracle(op, exp, after)
+        if o:
+            if pending and 11 in [q[0] for q in pending] and ap.fired:
+                return (o[0] + ':after-transient-fault', o[1])
+            return o
+        exp, pending = after, []
+    if pending:
+        try:
+            after = _contents(r) if case[0] == 4 else r.glom().collect()
+            log = list(ap.log)
+            idx = r.mapPartitionsWithIndex(lambda i, it: [i]).collect()
+        except Exception as e:  # pylint: disable=broad-except
+            return (f'{OPNAMES[pending[-1][0]]}:raises-{type(e).__name__}', f'ops {pending!r} on {parts!r:.200}')
+        if not _same(after, exp):
+            return (lazy_sig(), f'ops {pending!r}: {after!r:.200}, expected {exp!r:.200}')
+        if idx != list(range(len(after))):
+            return ('mapPartitionsWithIndex:indices', f'indices {idx!r:.200} for {len(after)} partitions')
+        if pending[-1][0] == 3:
+            ids = [t[1] for t in _flat(after)]
+            if len(set(ids)) != len(ids):
+                return ('zipWithUniqueId:duplicate-ids', f'{sorted(ids)!r:.200}')
+        if [op[0] for op in pending].count(12) == 1 and 12 not in [op[0] for op in case[2][:len(case[2]) - len(pending)]]:
+            n = len(after)
+            want = list(range(n))
+            for op in pending:
+                if op[0] == 11 and 0 <= op[1] < n:
+                    want.append(op[1])
+            if sorted(log) != sorted(want):
+                return ('mapPartitionsWithIndex:index-differs-between-attempts',
+                        f'the stage function was called with indices {log!r:.200}; one call per attempt gives {sorted(want)!r:.200}')
+    return None
+
+
+def oracle(case, result):
+    """The statement of C07 executed on the implementation alone (pipelines are re-run segment by segment)."""
+    if case[0] in (0, 4):
+        return _pipeline_oracle(case, result)
     if case[0] == 1:
         if isinstance(result, Err):
             return ('parallelize:raises-' + result.name, f'range({case[1]}), n={case[2]}')
@@ -322,7 +532,7 @@ def oracle(case, result):
 def nontrivial(case, result):
     if isinstance(result, Err):
         return False
-    if case[0] == 0:
+    if case[0] in (0, 4):
         return result[0] > 1 or (case[1][0] != 1 and (case[1][2] or 0) > 1) or (case[1][0] == 1 and len(case[1][1]) > 1)
     if case[0] in (1, 3):
         return (case[2] or 0) > 1 and case[1] > 0
@@ -333,11 +543,16 @@ OPN = ['coalesce', 'repartition', 'partitionBy', 'zipWithUniqueId', 'tagIndex']
 
 
 def kind(case):
-    if case[0] == 0:
-        if not case[2]:
+    if case[0] in (0, 4):
+        codes = [op[0] for op in case[2]]
+        if 11 in codes:
+            return 'transient-fault'
+        if codes.count(2) >= 2:
+            return 'partitionBy-sequence'
+        if not codes:
             return 'parallelize'
-        if len(case[2]) == 1:
-            return OPN[case[2][0][0]]
+        if len(codes) == 1:
+            return OPNAMES[codes[0]]
         return 'pipeline'
     return ['', 'range-summary', 'hash', 'range-probe'][case[0]]
 
@@ -458,6 +673,129 @@ def gen_ops(rng, et, count, errors=False):
     return ops
 
 
+def _key_kind(elems):
+    """Which partition functions / element functions apply to these elements (None: not all pairs)."""
+    if not all(isinstance(e, tuple) and len(e) == 2 for e in elems):
+        return None
+    keys = [e[0] for e in elems]
+    if all(isinstance(k, int) and not isinstance(k, bool) for k in keys):
+        return 'int'
+    if all(isinstance(k, (str, tuple)) for k in keys):
+        return 'sized'
+    return 'any'
+
+
+PFUNCS_FOR = {'int': [1, 1, 2, 3, 4, 0], 'sized': [0, 0, 6], 'any': [0]}
+
+
+def _lazy_choices(elems):
+    """Key-changing (and, as controls, key-keeping) lazy transformations applicable to the elements."""
+    kk = _key_kind(elems)
+    out = [(5, 3), (6, 1), (7, 1), (7, 2), (3,), (4,)]
+    if kk is not None:
+        out += [(5, 0), (5, 0), (5, 1), (6, 0), (6, 0), (7, 0), (7, 0), (8,)]
+        if kk == 'int':
+            out += [(5, 2), (5, 2)]
+    if elems and all(isinstance(e, int) and not isinstance(e, bool) for e in elems):
+        out += [(7, 3), (7, 3)]
+    return out
+
+
+def _shadow(op, elems):
+    """Element types after an op (layout-dependent numbers are irrelevant here)."""
+    if op[0] in MATERIALISING:
+        return [(x, i) for i, x in enumerate(elems)] if op[0] == 10 else elems
+    return _spec_lazy(op, [elems])[0]
+
+
+def gen_pby_sequence(rng):
+    """partitionBy(n, f) -> transformation(s) -> partitionBy again (same n and f object, or controls)."""
+    m = rng.randint(3, 12)
+    c = rng.random()
+    if c < 0.6:
+        elems = [(rng.randint(0, 6), rng.randint(0, 6)) for _ in range(m)]
+    elif c < 0.8:
+        elems = [(rng.choice(['a', 'b', 'ab', 'abc', '']), rng.randint(0, 4)) for _ in range(m)]
+    else:
+        elems = [rng.randint(0, 9) for _ in range(m)]
+    if rng.random() < 0.5:
+        src = (0, list(elems), rng.choice([None, 2, 3, 4]))
+    else:
+        src = (1, split_random(rng, list(elems), rng.randint(1, 4)))
+    ops = []
+    if _key_kind(elems) is None:
+        op = rng.choice([(7, 3), (7, 2), (5, 3), (3,), (4,)])
+        ops.append(op)
+        elems = _shadow(op, elems)
+    n = rng.choice([2, 2, 3, 3, 4, 5])
+    f = rng.choice(PFUNCS_FOR[_key_kind(elems)])
+    ops.append((2, n, f))
+    for _ in range(rng.choice([1, 1, 1, 2])):
+        if rng.random() < 0.2:
+            ops.append((9,))
+        for _ in range(rng.choice([1, 1, 2])):
+            op = rng.choice(_lazy_choices(elems))
+            ops.append(op)
+            elems = _shadow(op, elems)
+        if rng.random() < 0.2:
+            ops.append((9,))
+        kk = _key_kind(elems)
+        c = rng.random()
+        n2, f2 = n, f
+        if c < 0.15:
+            n2 = rng.choice([x for x in (2, 3, 4, 5) if x != n])
+        elif c < 0.3:
+            f2 = rng.choice(PFUNCS_FOR[kk])
+        if f2 not in FUNCS_FOR_KK[kk]:
+            f2 = 0 if f != 0 and rng.random() < 0.5 else rng.choice(PFUNCS_FOR[kk])
+        ops.append((2, n2, f2))
+        n, f = n2, f2
+    if rng.random() < 0.15:
+        ops.append(rng.choice([(8,), (9,)]))
+    return (0, src, ops)
+
+
+FUNCS_FOR_KK = {'int': [0, 1, 2, 3, 4, 5], 'sized': [0, 5, 6], 'any': [0, 5]}
+
+
+def gen_fault_case(rng):
+    """zipWithUniqueId / zipWithIndex / mapPartitionsWithIndex (and the layout ops) under one transient task fault."""
+    m = rng.randint(0, 12)
+    pairs = rng.random() < 0.4
+    elems = [(rng.randint(0, 5), 100 + i) for i in range(m)] if pairs else [100 + i for i in range(m)]
+    k = rng.choice([1, 2, 3, 3, 4, 5])
+    src = (0, elems, k) if rng.random() < 0.5 else (1, split_random(rng, elems, k))
+    prefix = []
+    c = rng.random()
+    if c < 0.15:
+        prefix = [(0, rng.randint(1, 4))]
+    elif c < 0.3 and pairs:
+        prefix = [(2, rng.choice([2, 3, 4]), rng.choice([0, 1, 3]))]
+    elif c < 0.4:
+        prefix = [(1, rng.randint(1, 5))]
+    fault = (11, rng.choice([0, 1, 1, 1, 2, 2, k - 1, k, 3]), rng.choice([0, 1, 1, 2]))
+    t = rng.random()
+    if t < 0.45:
+        seg = [fault, (3,)] + ([(12,)] if rng.random() < 0.6 else []) + ([rng.choice([(4,), (5, 3), (6, 1)])] if rng.random() < 0.3 else [])
+        rng.shuffle(seg)
+        ops = prefix + seg
+    elif t < 0.65:
+        seg = [fault, (12,)] + ([(4,)] if rng.random() < 0.3 else [])
+        rng.shuffle(seg)
+        ops = prefix + seg
+    elif t < 0.85:
+        seg = [fault] + ([(3,)] if rng.random() < 0.4 else []) + ([(4,)] if rng.random() < 0.3 else [])
+        rng.shuffle(seg)
+        ops = prefix + seg + [(10,)] + ([(12,)] if rng.random() < 0.3 else [])
+    else:
+        seg = [fault] + ([(3,)] if not pairs or rng.random() < 0.3 else [])
+        rng.shuffle(seg)
+        tail = [(2, rng.choice([2, 3]), 0 if (3,) in seg or not pairs else rng.choice([0, 1]))] if (pairs or (3,) in seg) \
+            else [rng.choice([(0, rng.randint(1, 3)), (1, rng.randint(1, 4))])]
+        ops = prefix + seg + tail + ([(12,)] if rng.random() < 0.3 else [])
+    return (4, src, ops)
+
+
 def generate(rng, tier):
     quick = tier == 'quick'
     cases = []
@@ -495,6 +833,22 @@ def generate(rng, tier):
     for i in range(400 if quick else 6000):
         src, et = gen_source(rng)
         cases.append((0, src, gen_ops(rng, et, rng.randint(1, 4), errors=(i % 5 == 0))))
+    # 3b. sequences around partitionBy: re-partitioning after key-changing transformations (same n, same f object)
+    cases.append((0, (0, [(0, 1), (1, 0), (2, 3), (3, 2)], 2), [(2, 2, 1), (5, 0), (2, 2, 1)]))
+    cases.append((0, (0, [(0, 1), (1, 0), (2, 3), (3, 2)], 2), [(2, 2, 0), (5, 0), (2, 2, 0)]))
+    cases.append((0, (0, [(0, 1), (1, 0), (2, 3), (3, 2)], 2), [(2, 2, 1), (5, 0), (9,), (2, 2, 1), (5, 2), (2, 2, 1)]))
+    cases.append((0, (0, [(0, 1), (1, 0), (2, 3), (3, 2)], 2), [(2, 2, 1), (8,), (2, 2, 1)]))
+    cases.append((0, (0, [5, 6, 7, 8], 2), [(7, 3), (2, 3, 1), (7, 1), (2, 3, 1)]))
+    for _ in range(250 if quick else 3000):
+        cases.append(gen_pby_sequence(rng))
+    # 3c. one transient task fault (the context retries the task) under zipWithUniqueId / zipWithIndex /
+    #     mapPartitionsWithIndex and before the layout ops
+    cases.append((4, (0, [10, 11, 12, 13, 14], 3), [(11, 1, 1), (3,)]))
+    cases.append((4, (0, [10, 11, 12, 13, 14], 3), [(3,), (12,), (11, 2, 0)]))
+    cases.append((4, (0, [10, 11, 12, 13, 14], 3), [(11, 1, 2), (10,)]))
+    cases.append((4, (0, [10, 11, 12, 13, 14], 3), [(12,), (11, 0, 1)]))
+    for _ in range(250 if quick else 3000):
+        cases.append(gen_fault_case(rng))
     # zero-partition datasets and non-pair elements
     cases.append((0, (1, []), [(0, 2)]))
     cases.append((0, (1, []), [(1, 2)]))
@@ -536,8 +890,17 @@ def generate(rng, tier):
 
 
 def shrink_candidates(case):
-    if case[0] == 0:
+    if case[0] in (0, 4):
+        for c in _shrink_pipeline(case):
+            yield (case[0],) + tuple(c[1:])
+        return
+    yield from _shrink_other(case)
+
+
+def _shrink_pipeline(case):
+    if True:
         _, src, ops = case
+        ops = list(ops)
         for i in range(len(ops)):
             yield (0, src, ops[:i] + ops[i + 1:])
         if src[0] == 0:
@@ -561,7 +924,10 @@ def shrink_candidates(case):
         for i, op in enumerate(ops):
             if len(op) > 1 and op[1] > 1:
                 yield (0, src, ops[:i] + [(op[0], op[1] - 1) + tuple(op[2:])] + ops[i + 1:])
-    elif case[0] in (1, 3):
+
+
+def _shrink_other(case):
+    if case[0] in (1, 3):
         N, n = case[1], case[2]
         if N > 0:
             yield (1, N // 2, n)
